@@ -30,6 +30,7 @@ import (
 	"fmt"
 	"os"
 	"os/exec"
+	"regexp"
 	"runtime"
 	"sort"
 	"strings"
@@ -144,9 +145,21 @@ func c17jDepth(b []byte) int {
 
 func c17jValueNodes(v cty.Value) int {
 	n := 0
-	try(func() {
-		cty.Walk(v, func(_ cty.Path, _ cty.Value) (bool, error) { n++; return true, nil })
-	})
+	var rec func(v cty.Value)
+	rec = func(v cty.Value) {
+		n++
+		v, _ = v.Unmark()
+		if !v.IsKnown() || v.IsNull() {
+			return
+		}
+		if ty := v.Type(); ty.IsListType() || ty.IsSetType() || ty.IsMapType() || ty.IsTupleType() || ty.IsObjectType() {
+			for it := v.ElementIterator(); it.Next(); {
+				_, ev := it.Element()
+				rec(ev)
+			}
+		}
+	}
+	try(func() { rec(v) })
 	return n
 }
 
@@ -174,6 +187,11 @@ func c17jAllocCause(b []byte, r c17jRes) string {
 }
 
 func (j *c17j) allocCheck(dec string, b []byte, t cty.Type, r c17jRes) {
+	j.allocCheckLit(dec, b, r, func() (string, string) { return c17jShort(b) + " " + c17jTyWire(t), c17jLit(dec, b, t) })
+}
+
+// allocCheckLit: lit gives (wire input, Go literal) lazily — the hand-made families have types that are too deep to print
+func (j *c17j) allocCheckLit(dec string, b []byte, r c17jRes, lit func() (string, string)) {
 	limit := uint64(c17jAllocK)*uint64(len(b)) + c17jAllocC
 	if ratio := float64(r.alloc) / float64(len(b)+16); ratio > j.maxR {
 		j.maxR = ratio
@@ -181,9 +199,10 @@ func (j *c17j) allocCheck(dec string, b []byte, t cty.Type, r c17jRes) {
 	if r.alloc <= limit {
 		return
 	}
+	in, golit := lit()
 	j.ctx.Fail(Failure{Site: "alloc", Sig: dec + ":" + c17jAllocCause(b, r),
 		What:  fmt.Sprintf("%s allocated %d bytes for a %d-byte input: more than %d*len+%d", dec, r.alloc, len(b), c17jAllocK, c17jAllocC),
-		Input: c17jShort(b) + " " + c17jTyWire(t), GoLit: c17jLit(dec, b, t), Outcome: fmt.Sprintf("%s alloc=%d len=%d depth=%d", r.out, r.alloc, len(b), c17jDepth(b))})
+		Input: in, GoLit: golit, Outcome: fmt.Sprintf("%s alloc=%d len=%d depth=%d", r.out, r.alloc, len(b), c17jDepth(b))})
 }
 
 func c17jTyWire(t cty.Type) string {
@@ -196,12 +215,20 @@ func c17jTyWire(t cty.Type) string {
 }
 
 func (j *c17j) panicFail(dec string, b []byte, t cty.Type, r c17jRes) {
-	why := r.why
+	why := c17jPanicSig(r.why)
+	j.ctx.Fail(Failure{Site: "no-panic", Sig: dec + ":" + why, What: dec + " panics on this input: " + r.why,
+		Input: c17jShort(b) + " " + c17jTyWire(t), GoLit: c17jLit(dec, b, t), Outcome: "panic: " + r.why})
+}
+
+var c17jQuoted = regexp.MustCompile(`"[^"]*"|[0-9]+`)
+
+// c17jPanicSig: the panic message without the parts that depend on the input (quoted names, numbers)
+func c17jPanicSig(why string) string {
+	why = c17jQuoted.ReplaceAllString(why, "_")
 	if len(why) > 80 {
 		why = why[:80]
 	}
-	j.ctx.Fail(Failure{Site: "no-panic", Sig: dec + ":" + why, What: dec + " panics on this input: " + r.why,
-		Input: c17jShort(b) + " " + c17jTyWire(t), GoLit: c17jLit(dec, b, t), Outcome: "panic: " + r.why})
+	return why
 }
 
 // ---- the value decoder ----------------------------------------------------------------------
@@ -356,6 +383,9 @@ func c17jTypeProblem(t cty.Type) string {
 			prob = "optional-attribute-not-declared"
 			return
 		}
+		if c17jTyDepth(t) > 200 {
+			return // printing and re-marshalling a very deep type is quadratic in the depth: not the decoder's cost
+		}
 		_ = t.FriendlyName()
 		_ = t.GoString()
 		b, err := ctyjson.MarshalType(t)
@@ -371,6 +401,35 @@ func c17jTypeProblem(t cty.Type) string {
 		prob = "type-methods-panic:" + why
 	}
 	return prob
+}
+
+func c17jTyDepth(t cty.Type) int {
+	d := 0
+	for {
+		switch {
+		case t.IsListType() || t.IsSetType() || t.IsMapType():
+			t = t.ElementType()
+			d++
+			continue
+		case t.IsTupleType():
+			m := 0
+			for _, e := range t.TupleElementTypes() {
+				if x := c17jTyDepth(e); x > m {
+					m = x
+				}
+			}
+			return d + 1 + m
+		case t.IsObjectType():
+			m := 0
+			for _, e := range t.AttributeTypes() {
+				if x := c17jTyDepth(e); x > m {
+					m = x
+				}
+			}
+			return d + 1 + m
+		}
+		return d
+	}
 }
 
 func c17jOptionalUndeclared(t cty.Type) string {
@@ -601,11 +660,22 @@ func c17jRunWorker(dec, shape string, n int, timeout time.Duration) (line string
 
 func runC17Json(ctx *Ctx) {
 	j := &c17j{ctx: ctx, judge: &c06Judge{ctx: ctx, seen: map[string]struct{}{}}}
+	t0 := time.Now()
+	phase := func(name string) {
+		if os.Getenv("C17J_TRACE") != "" {
+			fmt.Fprintf(os.Stderr, "C17J %s %.1fs\n", name, time.Since(t0).Seconds())
+		}
+		t0 = time.Now()
+	}
 	j.corpus()
+	phase("corpus")
 	j.families()
+	phase("families")
 	j.maxR = 0
 	j.generated()
+	phase("generated")
 	j.judge.finish()
+	phase("judge")
 	ctx.Tag(fmt.Sprintf("max-alloc-per-input-byte-on-generated-cases:%d", int(j.maxR)))
 	sort.Strings(ctx.res.Samples)
 }
@@ -713,6 +783,13 @@ var c17jHugeNumbers = []string{"1e999999999", "-1e999999999", "1e-999999999", "1
 // their own signatures) and the deep-nesting inputs of the quantifier
 func (j *c17j) families() {
 	ctx := j.ctx
+	tt := time.Now()
+	tr := func(name string) {
+		if os.Getenv("C17J_TRACE") != "" {
+			fmt.Fprintf(os.Stderr, "C17J   %s %.1fs\n", name, time.Since(tt).Seconds())
+		}
+		tt = time.Now()
+	}
 	// (a) value larger than the document: k empty objects against an object type of w attributes
 	// given in the document itself (Lean: C17.json_nodes_within_counterexample)
 	bomb := func(w, k int) []byte {
@@ -735,9 +812,10 @@ func (j *c17j) families() {
 		return sb.Bytes()
 	}
 	{
-		w, k := ctx.N(600, 2000), ctx.N(600, 4000)
+		w, k := ctx.N(600, 1500), ctx.N(600, 2000)
 		b := bomb(w, k)
-		r := j.unmarshalBig(b, cty.DynamicPseudoType)
+		r := j.unmarshalBig(b, cty.DynamicPseudoType, fmt.Sprintf("object-bomb w=%d k=%d", w, k),
+			fmt.Sprintf("json.Unmarshal([]byte(`{\"type\":[\"list\",[\"object\",{\"a00000\":\"bool\",… %d attributes}]],\"value\":[{},… %d times]}`), cty.DynamicPseudoType)", w, k))
 		ctx.Eval(fmt.Sprintf("family bomb %d %d", w, k), true)
 		ctx.Tag("family:object-bomb:" + r.out)
 		// the same width requested by the caller: the multiple is then a property of the TYPE, still beyond the bound
@@ -746,8 +824,10 @@ func (j *c17j) families() {
 			atys[fmt.Sprintf("a%05d", i)] = cty.Bool
 		}
 		plain := []byte("[" + strings.TrimSuffix(strings.Repeat("{},", k), ",") + "]")
-		j.unmarshalBig(plain, cty.List(cty.Object(atys)))
+		j.unmarshalBig(plain, cty.List(cty.Object(atys)), fmt.Sprintf("object-bomb-typed w=%d k=%d", w, k),
+			fmt.Sprintf("json.Unmarshal([]byte(`[{},… %d times]`), cty.List(cty.Object(map[string]cty.Type{\"a00000\": cty.Bool,… %d attributes})))", k, w))
 	}
+	tr("bomb")
 	// (b) nesting: 10^3 in the quick tier, up to 10^5 in the thorough tier (beyond 10^4 encoding/json's
 	// own depth limit answers for Unmarshal and UnmarshalType; ImpliedType uses the Token API, which has none)
 	depths := []int{1000, 2000}
@@ -756,17 +836,19 @@ func (j *c17j) families() {
 	}
 	for _, d := range depths {
 		ty := cty.Bool
-		if d <= 10000 {
+		if d <= 5000 {
 			for i := 0; i < d; i++ {
 				ty = cty.List(ty)
 			}
 			b := c17jFamily("arrays", d)
-			r := j.unmarshalBig(b, ty)
+			r := j.unmarshalBig(b, ty, fmt.Sprintf("nested-lists depth=%d", d),
+				fmt.Sprintf("t := cty.Bool; for i := 0; i < %d; i++ { t = cty.List(t) }; json.Unmarshal([]byte(strings.Repeat(\"[\", %d)+strings.Repeat(\"]\", %d)), t)", d, d, d))
 			ctx.Tag(fmt.Sprintf("family:nested-lists-%d:%s", d, r.out))
 		}
-		if d <= 1000 || (ctx.Thorough && d <= 5000) || d > 10000 {
+		if d <= 1000 || (ctx.Thorough && d <= 2000) || d > 10000 {
 			b := c17jFamily("dyn-wrappers", d)
-			r := j.unmarshalBig(b, cty.DynamicPseudoType)
+			r := j.unmarshalBig(b, cty.DynamicPseudoType, fmt.Sprintf("dyn-wrappers depth=%d", d),
+				fmt.Sprintf("json.Unmarshal([]byte(strings.Repeat(`{\"type\":\"dynamic\",\"value\":`, %d)+\"null\"+strings.Repeat(\"}\", %d)), cty.DynamicPseudoType)", d, d))
 			ctx.Tag(fmt.Sprintf("family:dyn-wrappers-%d:%s", d, r.out))
 		}
 		{
@@ -789,6 +871,7 @@ func (j *c17j) families() {
 			ctx.Tag(fmt.Sprintf("family:implied-%s-%d:%s", shape, d, r.out))
 		}
 		ctx.Eval(fmt.Sprintf("family nesting %d", d), true)
+		tr(fmt.Sprintf("nesting %d", d))
 	}
 	// (c) crash isolation: ImpliedType recurses once per '[' with no depth limit; a few megabytes of
 	// '[' exhaust the 1 GB goroutine stack — a fatal error, not a panic.  In a worker process.
@@ -808,11 +891,13 @@ func (j *c17j) families() {
 				Input: fmt.Sprintf("%d x '['", c.n), GoLit: fmt.Sprintf("json.ImpliedType(bytes.Repeat([]byte(\"[\"), %d))", c.n), Outcome: line + " | " + tail})
 		}
 	}
+	tr("worker")
 	if ctx.Thorough {
+		defer tr("workers-thorough")
 		for _, c := range []struct {
 			dec, shape string
 			n          int
-		}{{"simple", "arrays", 2500000}, {"unmarshal", "dyn-wrappers", 200000}, {"type", "type-lists", 1000000}, {"unmarshal", "typed-lists", 9000}} {
+		}{{"simple", "arrays", 2500000}, {"unmarshal", "dyn-wrappers", 200000}, {"type", "type-lists", 1000000}, {"unmarshal", "typed-lists", 4000}} {
 			line, crashed, tail := c17jRunWorker(c.dec, c.shape, c.n, 300*time.Second)
 			ctx.Tag(fmt.Sprintf("worker:%s-%s-%d:crashed=%v:%s", c.dec, c.shape, c.n, crashed, strings.SplitN(line, " ", 2)[0]))
 			if crashed {
@@ -828,8 +913,8 @@ func (j *c17j) families() {
 }
 
 // unmarshalBig: the value decoder on a large hand-made input: no-panic, conformance and allocation
-// only (no dump, no model)
-func (j *c17j) unmarshalBig(b []byte, t cty.Type) c17jRes {
+// only (no dump, no model); desc / golit describe the input (the types are too deep or too wide to print)
+func (j *c17j) unmarshalBig(b []byte, t cty.Type, desc, golit string) c17jRes {
 	var r c17jRes
 	r.out, r.why, r.alloc = c17jMeasure(func() error {
 		var err error
@@ -837,16 +922,17 @@ func (j *c17j) unmarshalBig(b []byte, t cty.Type) c17jRes {
 		return err
 	})
 	if r.out == "panic" {
-		j.panicFail("json.Unmarshal", b, t, r)
+		j.ctx.Fail(Failure{Site: "no-panic", Sig: "json.Unmarshal:" + c17jPanicSig(r.why), What: "json.Unmarshal panics on this input: " + r.why,
+			Input: desc, GoLit: golit, Outcome: "panic: " + r.why})
 	}
 	if r.out == "ok" {
 		var errs []error
 		if p, _ := try(func() { errs = r.v.Type().TestConformance(t) }); p || len(errs) != 0 {
 			j.ctx.Fail(Failure{Site: "conforms", Sig: "json.Unmarshal:result-type-does-not-conform", What: "the type of the decoded value does not conform to the requested type",
-				Input: c17jShort(b), GoLit: c17jLit("json.Unmarshal", b, t), Outcome: "?"})
+				Input: desc, GoLit: golit, Outcome: "?"})
 		}
 	}
-	j.allocCheck("json.Unmarshal", b, t, r)
+	j.allocCheckLit("json.Unmarshal", b, r, func() (string, string) { return desc + " " + c17jShort(b), golit })
 	r.v = cty.NilVal
 	return r
 }
